@@ -225,7 +225,7 @@ ADDED = {
     "C07": "Decoy messages whose name merely starts with the job's name; job settings compared at every delivery. Sequence mode: one worker, several jobs reusing an args id / message id one after the other or enqueued in a burst (same id on two queues), stalling arguments-bucket store; payloads larger than an AMQP frame.",
     "C09": "Also: a second, saturated worker with another topic on the same in-memory queue; actor bodies ending with CancelledError (in-memory, Redis). 15% of the scenarios use synchronous actors on simulated pool threads (threads or processes) where 1-3 functions overrun a 1 s execution timeout: a function that cannot be cancelled counts against the limit until it returns.",
     "C10": "graceful_shutdown_time 60 / 0.2 / 0.02 s, i.e. also shorter than the executions running when the limit is reached. A second worker consumes the same queue (15%): exactly-once overall and the limit of the limited worker. Result stores that raise (a processing task ending with an error still counts against the limit).",
-    "C11": "A quarter of the jobs (own and foreign) are deferred until one common instant.",
+    "C11": "A quarter of the jobs (own and foreign) are deferred until one common instant. In-memory single-worker runs: a size-neutral change of the shared queue (one foreign message taken by somebody else, one own job arriving in the same instant) - the own job starts within 1 s.",
     "C12": "An actor start after the expiry is judged whether the message was taken late or expired while waiting for a free slot; the ttl clock of retried messages is compared with the recorder's latest scheduling. The dead-letter queue is browsed with a foreign topic filter before the expired message is retrieved from it.",
     "C13": "Slow I/O: a result store stalls for 20 ms - 5 s (every store in turn for every 10th scenario); the producer polls Job.result while the chains run. Application object created with update_config=True in 15% of the runs.",
     "C14": "Day-long time limits with bystander connections whose maintenance runs meanwhile; two overlapping rejects of one delivery (Redis, RabbitMQ). The holder's reject/ack and its consumer's finish() overlap at offsets -4..+4 loop steps. Messages of two topics on one queue with topic-filtering consumers; delayed messages sharing their due instant. One of the workers is told to stop while its actors run (they finish within the graceful period).",
